@@ -6,6 +6,7 @@ require (
 	github.com/markusressel/fan2go v0.0.0
 	github.com/prometheus/client_golang v1.22.0
 	github.com/pterm/pterm v0.12.79
+	github.com/spf13/viper v1.20.1
 	go.etcd.io/bbolt v1.4.0
 	pgregory.net/rapid v1.3.0
 )
@@ -47,7 +48,6 @@ require (
 	github.com/spf13/afero v1.12.0 // indirect
 	github.com/spf13/cast v1.7.1 // indirect
 	github.com/spf13/pflag v1.0.6 // indirect
-	github.com/spf13/viper v1.20.1 // indirect
 	github.com/subosito/gotenv v1.6.0 // indirect
 	github.com/valyala/bytebufferpool v1.0.0 // indirect
 	github.com/valyala/fasttemplate v1.2.2 // indirect
